@@ -16,10 +16,21 @@ RECORDS = {
                              "end_timestamp": "int", "application_name": "str", "parent_event_id": "Optional[str]"}},
 }
 
+RECORDS.update({
+    "JobHash": {"struct": True, "fields": {"job_id": "str", "job_hash": "str", "job_name": "str"}},
+    "Table": {"fields": {}},
+    "SQLDataHolder": {"fields": {"g_roots": "list[NodeModel]", "g_hashes": "list[JobHash]", "batch_size": "int", "time_buffer": "int"},
+                      "mutable": ["g_hashes"]},
+})
+
 SPECS = '''
 @opaque
 def size(n: NodeModel) -> int:
     return 0
+
+@opaque
+def window_empty(time_buffer: int, h: SQLDataHolder) -> bool:
+    return False
 
 def H(n: NodeModel, M: dict[str, list[NodeModel]]) -> str:
     return (xxh(n.event_type + "".join(sorted([H(c, M) for c in M[n.event_id]]))) if n.event_id in M else xxh(n.event_type))
@@ -53,8 +64,84 @@ CONTRACTS = {
                   "== [H(c, node_to_children) for c in node_to_children[node.event_id]])"],
         "pure": True,
     },
+    # ------------------------------------------------------------------ walking the roots in batches (ghost: g_roots = the rows of the
+    # temporary root table in the order the batches are cut from it, g_hashes = the job_hashes rows written so far)
+    "compute_graph_hashes_from_root_nodes": {
+        "requires": {"tree": TREE},
+        "ensures": {
+            "one_row_per_root": "len(result) == len(root_nodes)",
+            "rows": "all(result[p].job_id == root_nodes[p].job_id and result[p].job_name == root_nodes[p].job_name "
+                    "and result[p].job_hash == H(root_nodes[p], node_to_children) for p in range(len(root_nodes)))",
+        },
+        "pure": True,
+    },
+    "get_sql_batch_nodes": {
+        "trusted": True, "pure": True,
+        # the stored spans of the given traces; the store holds forests (no parent cycles): the tree precondition of the hash
+        "ensures": {"forest": "forall(lambda x: implies(x.event_id in create_event_id_to_child_nodes_map(result), all(0 <= size(c) < size(x) "
+                              "for c in create_event_id_to_child_nodes_map(result)[x.event_id])), 'NodeModel', triggers=[x.event_id])"},
+    },
+    "insert_job_hashes": {
+        "trusted": True, "modifies": ["SQLDataHolder.g_hashes"],
+        "raises": {"IntegrityError": "any(any(h.job_id == r.job_id for h in sql_data_holder.g_hashes) for r in job_hashes) or "
+                                     "any(job_hashes[a].job_id == job_hashes[b].job_id for a in range(len(job_hashes)) for b in range(a + 1, len(job_hashes)))"},
+        "ensures": {"appended": "sql_data_holder.g_hashes == old(sql_data_holder.g_hashes) + job_hashes"},
+    },
+    "compute_graph_hashes_for_batch": {
+        "modifies": ["SQLDataHolder.g_hashes"],
+        "raises": {"IntegrityError": "any(any(h.job_id == r.job_id for h in sql_data_holder.g_hashes) for r in root_nodes) or "
+                                     "any(root_nodes[a].job_id == root_nodes[b].job_id for a in range(len(root_nodes)) for b in range(a + 1, len(root_nodes)))"},
+        "ensures": {
+            "one_row_per_root": "len(sql_data_holder.g_hashes) == len(old(sql_data_holder.g_hashes)) + len(root_nodes)",
+            "earlier_rows_kept": "all(sql_data_holder.g_hashes[q] == old(sql_data_holder.g_hashes)[q] for q in range(len(old(sql_data_holder.g_hashes))))",
+            "ids": "all(sql_data_holder.g_hashes[q].job_id == root_nodes[q - len(old(sql_data_holder.g_hashes))].job_id and "
+                   "sql_data_holder.g_hashes[q].job_name == root_nodes[q - len(old(sql_data_holder.g_hashes))].job_name "
+                   "for q in range(len(old(sql_data_holder.g_hashes)), len(sql_data_holder.g_hashes)))",
+        },
+    },
+    "get_time_window": {"trusted": True, "external": True, "params": {"time_buffer": "int", "data_holder": "SQLDataHolder"}, "returns": "tuple[int, int]",
+                        "raises": {"ValueError": "window_empty(time_buffer, data_holder)"}, "ensures": {}},
+    "create_temp_table_of_root_nodes_in_time_window": {"trusted": True, "ensures": {}, "params": {"time_window": "tuple[int, int]"}},
+    "get_root_nodes": {
+        "trusted": True,
+        "raises": {"ValueError": "start_row < 0 or batch_size < 0"},
+        # a slice of the root table (Python slice semantics: clamped at the end)
+        "ensures": {"slice": "result == data_holder.g_roots[min(start_row, len(data_holder.g_roots)):min(start_row + batch_size, len(data_holder.g_roots))]"},
+    },
+    "get_unique_graph_job_ids_per_job_name": {"trusted": True, "ensures": {}},
+    "find_unique_graphs": {
+        "modifies": ["SQLDataHolder.g_hashes"],
+        "externals": ["sa", "session"],
+        "ghost_effects": [{"after": "session.execute(sa.delete(JobHash))", "modifies": ["SQLDataHolder.g_hashes"],
+                           "ensures": {"emptied": "len(sql_data_holder.g_hashes) == 0"}}],
+        "requires": {
+            "batch": "batch_size >= 1",
+            # one root span per trace (a trace with two parentless spans makes the real function fail with IntegrityError - observed, DESIGN I.3)
+            "one_root_per_trace": "all(sql_data_holder.g_roots[a].job_id != sql_data_holder.g_roots[b].job_id for a in range(len(sql_data_holder.g_roots)) "
+                                  "for b in range(a + 1, len(sql_data_holder.g_roots)))",
+        },
+        "raises": {"ValueError": "window_empty(time_buffer, sql_data_holder)"},
+        "ensures": {
+            # every root trace of the window is hashed exactly once, whatever the batch size
+            "every_root_hashed_once": "len(sql_data_holder.g_hashes) == len(sql_data_holder.g_roots) and all(sql_data_holder.g_hashes[p].job_id == "
+                                      "sql_data_holder.g_roots[p].job_id and sql_data_holder.g_hashes[p].job_name == sql_data_holder.g_roots[p].job_name "
+                                      "for p in range(len(sql_data_holder.g_roots)))",
+        },
+        "loops": {0: {"invariant": {
+            "progress": "start_row >= 0",
+            "hashed_prefix": "len(sql_data_holder.g_hashes) == min(start_row, len(sql_data_holder.g_roots)) and all(sql_data_holder.g_hashes[p].job_id == "
+                             "sql_data_holder.g_roots[p].job_id and sql_data_holder.g_hashes[p].job_name == sql_data_holder.g_roots[p].job_name "
+                             "for p in range(len(sql_data_holder.g_hashes)))",
+        }, "hints_end": [
+            "start_row - batch_size < len(sql_data_holder.g_roots)",
+            "len(root_nodes) == min(start_row, len(sql_data_holder.g_roots)) - (start_row - batch_size)",
+            "all(root_nodes[p] is sql_data_holder.g_roots[start_row - batch_size + p] for p in range(len(root_nodes)))",
+        ]}},
+    },
 }
-ORDER = ["create_event_id_to_child_nodes_map", "compute_graph_hash_from_event_ids"]
+ORDER = ["create_event_id_to_child_nodes_map", "compute_graph_hash_from_event_ids", "compute_graph_hashes_from_root_nodes", "get_sql_batch_nodes",
+         "insert_job_hashes", "compute_graph_hashes_for_batch", "get_time_window", "create_temp_table_of_root_nodes_in_time_window", "get_root_nodes",
+         "get_unique_graph_job_ids_per_job_name", "find_unique_graphs"]
 
 
 def setup(V):
